@@ -132,7 +132,7 @@ func genWorldKeyed(src *choice.Src, o WOpts, keySeed uint64) *World {
 	if o.AbsPatterns {
 		w.AbsInputs = true
 	}
-	w.Version = choice.Pick(src, "bver", []string{"", "", "dev-main", "0.4.2", "0.4.0", "1.2.0", "v0.4.1"})
+	w.Version = choice.Pick(src, "bver", []string{"", "", "dev-main", "0.4.2", "0.4.0", "1.2.0", "v0.4.1", "v1.2.0", "v1.0.3", "v2.1.0"})
 	w.MapSeed = seed64(src, "mapseed")
 	w.ListSeed = seed64(src, "listseed")
 	w.Clock = int64(1600000000 + src.Draw("clock", 1<<28))
